@@ -36,7 +36,7 @@ from oqupy.bath import Bath
 from oqupy.base_api import BaseAPIClass
 from oqupy.config import MAX_DKMAX, DEFAULT_TOLERANCE, MAX_SYS_SAMPLES
 from oqupy.config import INTEGRATE_EPSREL, SUBDIV_LIMIT
-from oqupy.config import TEMPO_BACKEND_CONFIG
+from oqupy.config import TEMPO_BACKEND_CONFIG, NpDtype
 from oqupy.bath_correlations import BaseCorrelations, CustomSD
 from oqupy.dynamics import Dynamics, MeanFieldDynamics
 from oqupy.system import BaseSystem, System, TimeDependentSystem,\
@@ -1297,6 +1297,9 @@ def _tempo_physical_input_parse(
             initial_state.shape == (hs_dim, hs_dim),
             "Initial sate must be a square matrix of " \
                 + f"dimension {hs_dim}x{hs_dim}.")
+        # keep an own copy (the state is only used when the computation
+        # starts and the caller may re-use the array in the meantime)
+        initial_state = np.array(initial_state, dtype=NpDtype)
 
     check_isinstance(bath, Bath, 'bath')
 
